@@ -40,12 +40,14 @@ let () =
                let elo v = let i = 4 * int_of_n v in (eighth ewa.(i), whole ewa.(i + 1)) in
                let ehi v = let i = 4 * int_of_n v in (eighth ewa.(i + 2), whole ewa.(i + 3)) in
                let nv = nat_of_int total in
+               (* optimal values only: which optimal assignment is returned is not fixed by the
+                  property; the harness oracle judges the returned assignments *)
                let real_res = function
                  | None -> "PANIC"
-                 | Some (v, m) -> qs v ^ ":" ^ pm_str total m in
+                 | Some (v, _m) -> qs v in
                let eu_res = function
                  | None -> "PANIC"
-                 | Some ((a, b), m) -> qs a ^ "," ^ qs b ^ ":" ^ pm_str total m in
+                 | Some ((a, b), _m) -> qs a ^ "," ^ qs b in
                Printf.printf "%s mm=%s bbr=%s meu=%s bbe=%s\n" id
                  (real_res (marginal_map_m nv rlo rhi p query))
                  (real_res (bb_real_m nv rlo rhi p query))
